@@ -1555,7 +1555,10 @@ func scenC07(g *Gen, dir string) ([]*Op, func(e *Env, i int, op *Op, obs []strin
 		signers = append(signers, s2.keyList()...)
 		g.count("mix:second-signature")
 	}
-	variant := r.Intn(10)
+	variant := r.Intn(12)
+	if variant >= 10 {
+		variant = 6 // (the envelope variants have two sub-cases)
+	}
 	mangled := false
 	hintKey := -1
 	var nobj uint32
